@@ -135,9 +135,8 @@
                 assert_eq!(len, dk);
                 let rx = (all[18 * k + dk] as u16) | ((all[18 * k + dk + 1] as u16) << 8);
                 if res != rx {
+                    // (whether further blocks are still looked at after a mismatch is not demanded)
                     all_match = false;
-                    // first mismatch stops the frame: no further block is looked at
-                    assert_eq!(calls, k + 1);
                 }
             }
             k += 1;
@@ -414,13 +413,21 @@
             let (pos, tag) = unsafe { IMPL_LOG[i] };
             let (ppos, ptag) = unsafe { IMPL_LOG[i - 1] };
             assert!(tag == 0);
-            if ptag == 0 {
-                // failed attempt started at ppos as a fresh frame: skip exactly that byte (or stay at the end)
-                assert!(pos == if ppos < 4 { ppos + 1 } else { 4 });
+            // Bytes that were never examined as a possible frame start must not be skipped - unless they cannot start a
+            // frame (anything but 0x05): a scanner that jumps ahead to the next 0x05 is as good as one that moves by one.
+            let first_unexamined = if ptag == 0 {
+                // the failed attempt started at ppos as a fresh frame: ppos itself has been examined
+                if ppos < 4 { ppos + 1 } else { 4 }
             } else {
-                // failed attempt resumed a frame begun in an earlier read: its first byte is already gone,
-                // byte `ppos` of this read has never been examined as a frame start and must not be skipped
-                assert!(pos == ppos);
+                // the failed attempt resumed a frame begun in an earlier read: its first byte is already gone, byte `ppos`
+                // of this read has never been examined as a frame start
+                ppos
+            };
+            assert!(pos >= first_unexamined && pos <= 4);
+            let mut j = first_unexamined;
+            while j < pos {
+                assert!(b[j] != 0x05);
+                j += 1;
             }
             i += 1;
         }
